@@ -70,6 +70,27 @@ pub fn handle_mset(storage: &mut EngineModel, db: usize, parts: &[RespFrame]) ->
 #[verifier::external_body]
 pub fn verif_clone_arc_bytes(b: &Arc<Vec<u8>>) -> (r: Vec<u8>) ensures r == **b, { unimplemented!() }
 
+// RENAME: the source must exist — also when both names are the same — or the command is refused without effect; otherwise the value (and its TTL)
+// moves to the new name, replacing whatever was there
+//@@ unit handle_rename fn src/storage/commands/strings.rs handle_rename
+//@@   params drop "storage: &Arc<StorageEngine>" add "storage: &mut EngineModel"
+//@@   rewrite RT "bytes.as_ref().clone()" "verif_clone_arc_bytes(bytes)"
+pub fn handle_rename(storage: &mut EngineModel, db: usize, parts: &[RespFrame]) -> (r: Result<RespFrame>)
+    ensures
+        (parts@.len() != 3 || arg(parts@, 1) is None || arg(parts@, 2) is None) ==> cmd_refused(r, old(storage).ds@, final(storage).ds@) && final(storage).ttl@ == old(storage).ttl@,
+        parts@.len() == 3 && arg(parts@, 1) is Some && arg(parts@, 2) is Some ==> ({
+            let o = arg(parts@, 1)->Some_0; let n = arg(parts@, 2)->Some_0;
+            if !old(storage).ds@.contains_key((db as int, o)) {
+                // no such key: no success reply (the error travels as Err or as an error frame), nothing changes
+                !(r matches Ok(f) && !(f is Error)) && final(storage).ds@ == old(storage).ds@ && final(storage).ttl@ == old(storage).ttl@
+            } else {
+                (r matches Ok(f) && f is SimpleString)
+                && final(storage).ds@ == old(storage).ds@.remove((db as int, o)).insert((db as int, n), old(storage).ds@[(db as int, o)])
+            }
+        }),
+//@@ body
+//@@ end
+
 //@@ unit handle_append fn src/storage/commands/strings.rs handle_append
 //@@   params drop "storage: &Arc<StorageEngine>" add "storage: &mut EngineModel"
 //@@   rewrite R3
